@@ -525,12 +525,39 @@ func (e *Exec) formatSymInt(t *Term, k types.BasicKind) Str {
 		pow *= 10
 	}
 	digits := make([]Value, nd)
-	div := uint64(1)
-	for i := nd - 1; i >= 0; i-- {
-		d := tt.BVBin("bvurem", tt.BVBin("bvudiv", v, tt.BV(div, 64)), tt.BV(10, 64))
-		ch := tt.BVBin("bvadd", tt.Resize(d, 8, false), tt.BV('0', 8))
-		digits[i] = e.fromTermK(ch, types.Uint8)
-		div *= 10
+	if nd <= 4 {
+		// threshold method: no division terms (bvudiv by constants stalls bit-blasting)
+		rem := v
+		p := uint64(1)
+		for i := 1; i < nd; i++ {
+			p *= 10
+		}
+		for i := 0; i < nd; i++ {
+			// digit = number of thresholds k*p (k=1..9) that rem reaches
+			d := tt.BV(0, 64)
+			sub := tt.BV(0, 64)
+			for k := uint64(9); k >= 1; k-- {
+				ge := tt.BVCmp("bvuge", rem, tt.BV(k*p, 64))
+				// build from the top: first satisfied threshold wins
+				_ = ge
+			}
+			for k := uint64(1); k <= 9; k++ {
+				ge := tt.BVCmp("bvuge", rem, tt.BV(k*p, 64))
+				d = tt.Ite(ge, tt.BV(k, 64), d)
+				sub = tt.Ite(ge, tt.BV(k*p, 64), sub)
+			}
+			digits[i] = e.fromTermK(tt.BVBin("bvadd", tt.Resize(d, 8, false), tt.BV('0', 8)), types.Uint8)
+			rem = tt.BVBin("bvsub", rem, sub)
+			p /= 10
+		}
+	} else {
+		div := uint64(1)
+		for i := nd - 1; i >= 0; i-- {
+			d := tt.BVBin("bvurem", tt.BVBin("bvudiv", v, tt.BV(div, 64)), tt.BV(10, 64))
+			ch := tt.BVBin("bvadd", tt.Resize(d, 8, false), tt.BV('0', 8))
+			digits[i] = e.fromTermK(ch, types.Uint8)
+			div *= 10
+		}
 	}
 	s := strFromBytes(digits)
 	if neg {
